@@ -184,6 +184,47 @@ KIND_SHEETS = [
 ]
 
 
+# ---- namespaces: every selector item kind as the ONLY user of a prefix x where the rule sits x what is left of the
+# rule set under the omission preferences (a second prefix q is declared and never used)
+NS_SELECTORS = ["p|a", "p|*", "a[p|x]", "a[p|x=y]", ":not(p|b)", ":not(p|*)", ":not([p|x])", "a:not(p|b)", "x > p|a",
+                "h1, p|a", "a", "*", ":not(a)", "*|a", "|a", "a[x]", ".c", "p|a:hover::before"]
+NS_BODIES = ["color: red", "", "/* only a comment */", "foo: bar", "color: red; color: blue", "color: 1px",
+             "@in x;", "/* c */ foo: bar"]
+
+
+def ns_sheets(full):
+    out = []
+    k = 0
+    for sel in NS_SELECTORS:
+        for body in NS_BODIES:
+            for where in (0, 1):
+                k += 1
+                dflt = '@namespace "http://d";\n' if (k % 2 or sel in ("a", "*", ":not(a)")) else ""
+                rule = "%s { %s }" % (sel, body)
+                if where:
+                    rule = "@media print { %s }" % rule
+                out.append('%s@namespace p "http://p";\n@namespace q "http://q";\n%s' % (dflt, rule))
+    return out
+
+
+OMISSION_PREFS = ["keepUsedNamespaceRulesOnly", "keepEmptyRules", "keepComments", "validOnly", "keepAllProperties",
+                  "keepUnknownAtRules"]
+
+
+def omission_rows():
+    """full factorial over the preferences that omit something (their interactions decide what is 'used')"""
+    from css_parser.serialize import Preferences
+    d = Preferences().__dict__
+    rows = []
+    for bits in itertools.product([False, True], repeat=len(OMISSION_PREFS)):
+        pd = {k: b for k, b in zip(OMISSION_PREFS, bits) if d[k] != b}
+        rows.append((pd, False))
+    rows.append(({}, True))
+    rows.append(({"keepComments": True}, True))
+    rows.append(({"keepEmptyRules": True, "keepComments": True}, True))
+    return rows
+
+
 def gen_style(rng):
     sels = rng.sample(SELECTORS, rng.randint(1, 3))
     ds = []
@@ -324,9 +365,9 @@ def used_uris(sheet):
             if r.type == r.STYLE_RULE:
                 for s in r.selectorList:
                     for it in s.seq:
-                        if isinstance(it.value, tuple) and it.type in ("type-selector", "universal", "attribute-selector"):
-                            if it.type == "attribute-selector" and it.value[0] is None:
-                                continue          # an unprefixed attribute is in no namespace
+                        # every qualified name (element, universal, attribute; also inside :not()) is stored as
+                        # a (namespaceURI, name) pair whatever the item is called; an unprefixed attribute is a str
+                        if isinstance(it.value, tuple) and len(it.value) == 2:
                             used.add(it.value[0])
             elif r.type == r.MEDIA_RULE:
                 walk(r.cssRules)
@@ -948,13 +989,14 @@ def run(ctx):
     fixed = corpus.get("sheets", []) + KIND_SHEETS
     samples = sample_sheets(20000 if thorough else 10000)
     numsheets = numeric_sheets(full=thorough)
-    sheets = [("corpus", t) for t in fixed] + [("num", t) for t in numsheets] + [("gen", t) for t in gen_sheets] + samples
+    nssheets = ns_sheets(thorough)
+    sheets = [("corpus", t) for t in fixed] + [("num", t) for t in numsheets] + [("ns", t) for t in nssheets] + [("gen", t) for t in gen_sheets] + samples
 
     # -- (b) skeleton correspondence on the same sheets
     s_rows = rows[:2] + [rows[i] for i in range(2, len(rows), 4 if thorough else 6)]
     sjobs = [(t, pd, mini) for name, t in sheets
              for pd, mini in (s_rows if name in ("gen", "corpus") else s_rows[:2] + s_rows[2::5])
-             if name != "num" or not thorough]
+             if name != "ns" and (name != "num" or not thorough)]
     sres = ctx.pool_map(skeleton_case, sjobs, procs=6, chunksize=40)
     s_skipped, s_mism, s_done = 0, [], 0
     if binary:
@@ -978,8 +1020,10 @@ def run(ctx):
     small = rows[:2] + rows[2 + (ctx.seed % step)::step]
     # the numeric matrix: every row in the quick tier (16 sheets); in the thorough tier (full unit product, ~150
     # sheets) every row that touches number spelling (omitLeadingZero / useMinified) plus the slice
+    orows = omission_rows()
     numrows = rows if not thorough else small + [r for r in rows[2:] if r[1] or "omitLeadingZero" in r[0]]
-    jobs = [(t, rows if name in ("gen", "corpus") else numrows if name == "num" else small) for name, t in sheets]
+    jobs = [(t, rows if name in ("gen", "corpus") else numrows if name == "num" else
+             (orows + (small if thorough else [])) if name == "ns" else small) for name, t in sheets]
     t0 = time.time()
     eres = ctx.pool_map(e2e_job, jobs, procs=6, chunksize=1)
     evals = sum(len(j[1]) for j in jobs)
@@ -989,7 +1033,7 @@ def run(ctx):
         for i, v in res:
             if v[0] == "skip":
                 skipped += 1
-                skip_sheets.add(name if name not in ("gen", "corpus", "num") else t[:60])
+                skip_sheets.add(name if name not in ("gen", "corpus", "num", "ns") else t[:60])
             else:
                 fails.append((t, job[1][i], v[1]))
     reported = {}
@@ -1046,12 +1090,13 @@ def run(ctx):
         "rule": "end-to-end: %d preference rows (useDefaults, useMinified, a %d-row pairwise-covering array over all %d "
                 "preferences, random points, every single non-default value) x %d sheets (%d generated over the "
                 "grammar incl. random numeric shapes, %d numeric-matrix sheets [sign x integer part x fraction x unit], %d value-kind "
-                "sheets [colours, strings, urls, unicode-range, !important], %d repository sample sheets) = %d oracle evaluations, %d skipped because the DEFAULT "
+                "sheets [colours, strings, urls, unicode-range, !important], %d namespace sheets [selector item kind as only user of a "
+                "prefix x top-level/@media x body kind] under the %d-row factorial of the omitting preferences, %d repository sample sheets) = %d oracle evaluations, %d skipped because the DEFAULT "
                 "serialisation already does not round-trip; Out.append: %d random item sequences x random "
                 "preferences (%d raise in both, %d with >= 3 output elements); skeleton: %d (sheet, preferences) pairs "
                 "compared, %d out of the skeleton's scope; non-trivial = not skipped / >= 3 output elements" % (
                     len(rows), len(arr), len(space), len(sheets), len(gen_sheets), len(numsheets), len(KIND_SHEETS),
-                    len(samples), evals, skipped,
+                    len(nssheets), len(orows), len(samples), evals, skipped,
                     len(acases), a_crash, a_nontrivial, s_done, s_skipped),
         "samples": [{"prefs": rows[5][0], "sheet": gen_sheets[0][:200]},
                     {"append_case": acases[-1]}, {"skipped_sheets": sorted(skip_sheets)[:8]}],
